@@ -231,6 +231,23 @@ func (p *Pool) MarkUnavailable(ip net.IP) {
 	}
 }
 
+// Decline handles a DHCPDECLINE of ip by mac: if ip is that client's allocation
+// the allocation is dropped without returning ip to the available list, and ip
+// is marked unavailable, so that it is not handed out again. It reports whether
+// ip was the client's allocation.
+func (p *Pool) Decline(mac net.HardwareAddr, ip net.IP) bool {
+	p.mu.Lock()
+	defer p.mu.Unlock()
+
+	cur, exists := p.allocated[mac.String()]
+	if !exists || !cur.Equal(ip) {
+		return false
+	}
+	delete(p.allocated, mac.String())
+	p.unavailable[ip.String()] = struct{}{}
+	return true
+}
+
 // Stats returns pool statistics
 func (p *Pool) Stats() PoolStats {
 	p.mu.Lock()
